@@ -14,14 +14,21 @@ import GoLucene.Proofs.QuotedVerbatim
     `NumLaws`   (Atoi / ParseFloat / Itoa / float formatting; used by (1), (2)),
     `NumLaws2`  (one fact on float64 <-> int64; only for the idempotence of `retype` on range bounds),
     `FmtLaws`   (two facts on the JSON text of integer-valued floats; only for "re-encodes to the identical bytes").
-  They are hypotheses of the theorems (to be validated separately by differential testing against Go), not axioms.
+  They are hypotheses of the theorems, not axioms — and all four are PROVED from the definitions of Model/Json.lean and
+  Model/Num.lean in Proofs/Laws.lean (`Laws.jsonLaws`, `Laws.numLaws`, `Laws.numLaws2`, `Laws.fmtLaws`), which also
+  states the law-free corollaries (`Laws.roundtrip_decodes`, `Laws.roundtrip_full`, …).
 
   (1) `roundtrip_decodes`   marshalExpr e = .ok j → unmarshalTop j = .ok (retype e)
       (`roundtrip_total` adds the success of the encoder, C01).  `retype` is what the decoder infers; it also models
       the two recorded findings (-0 → int 0; range bounds through float64), so (1) needs neither exclusion.
+      It needs `depthOK e`: the encoding nests at most `Json.maxNestingDepth` = 10000 arrays / objects (the limit of
+      encoding/json's scanner).  `Enc` carries the nesting depth as an index and the laws about `valid` / `parse1` are
+      stated within the limit; without it they are false of Model/Json.lean and (1) is false of the model
+      (`Laws.valid_enc_unbounded_false`, `Laws.decode_needs_depth` in Proofs/Laws*.lean).
   (2) `roundtrip_stable`    retype (retype e) = retype e  (all trees);
                             marshalExpr (retype e) = marshalExpr e  (fragment + `fieldsCanon`, `noNegZeroLeaf`,
-                            `noBigIntBound`; each is necessary: `reencode_needs_*`);
+                            `noBigIntBound` — which covers int bounds AND integer-valued float bounds beyond 2^53;
+                            each is necessary: `reencode_needs_*`);
                             kindStable e = true → retype e = e  (all trees).
   (3) `roundtrip_validates` validateExpr (retype e) = true  (all validated trees with `likeKindOK`; necessary:
                             `validate_needs_likeKind`);
@@ -61,14 +68,32 @@ inductive LeafEnc : Bytes → Prop
   | int (i : Int) : LeafEnc (fmtInt i)
   | flt (f : F64) (t : Bytes) : fmtJSON f = some t → LeafEnc t
 
-/-- `t` is a text the encoder can produce: a scalar, `true`/`false`, an array of such texts, an object whose keys are
-    among `keyNames` and whose values are such texts.  No insignificant whitespace anywhere. -/
-inductive Enc : Bytes → Prop
-  | leaf (t : Bytes) : LeafEnc t → Enc t
-  | bool (v : Bool) : Enc (boolText v)
-  | arr (vs : List Bytes) : (∀ v, v ∈ vs → Enc v) → Enc (arrText vs)
-  | obj (kvs : List (String × Bytes)) : kvs ≠ [] → (∀ kv, kv ∈ kvs → kv.1 ∈ keyNames) → (∀ kv, kv ∈ kvs → Enc kv.2) →
-    Enc (objText kvs)
+/-- `Enc n t`: `t` is a text the encoder can produce — a scalar, `true`/`false`, an array of such texts, an object
+    whose keys are among `keyNames` and whose values are such texts — whose arrays / objects are nested at most `n`
+    deep.  No insignificant whitespace anywhere.
+    The depth index matters: encoding/json's scanner (and `Json.valid`) rejects a document that opens more than
+    `Json.maxNestingDepth` = 10000 nested arrays / objects, so the laws about `valid` / `parse1` below are stated for
+    `n ≤ maxNestingDepth` only (without the bound they are FALSE of Model/Json.lean: `Laws.valid_enc_unbounded_false`). -/
+inductive Enc : Nat → Bytes → Prop
+  | leaf (n : Nat) (t : Bytes) : LeafEnc t → Enc n t
+  | bool (n : Nat) (v : Bool) : Enc n (boolText v)
+  | arr (n : Nat) (vs : List Bytes) : (∀ v, v ∈ vs → Enc n v) → Enc (n + 1) (arrText vs)
+  | obj (n : Nat) (kvs : List (String × Bytes)) : kvs ≠ [] → (∀ kv, kv ∈ kvs → kv.1 ∈ keyNames) →
+    (∀ kv, kv ∈ kvs → Enc n kv.2) → Enc (n + 1) (objText kvs)
+
+/-- the depth index is an upper bound -/
+theorem Enc.mono {n : Nat} {t : Bytes} (h : Enc n t) : ∀ {m : Nat}, n ≤ m → Enc m t := by
+  induction h with
+  | leaf n t hl => intro m _; exact .leaf m t hl
+  | bool n v => intro m _; exact .bool m v
+  | arr n vs _ ih =>
+    intro m hm
+    obtain ⟨m', rfl⟩ : ∃ m', m = m' + 1 := ⟨m - 1, by omega⟩
+    exact .arr m' vs (fun v hv => ih v hv (by omega))
+  | obj n kvs hne hk _ ih =>
+    intro m hm
+    obtain ⟨m', rfl⟩ : ∃ m', m = m' + 1 := ⟨m - 1, by omega⟩
+    exact .obj m' kvs hne hk (fun kv hkv => ih kv hkv (by omega))
 
 /-- first byte of a number text: `-` or a digit -/
 def numHead : Bytes → Bool
@@ -88,13 +113,13 @@ def boundText (A C : Bytes) (incl : Bool) : Bytes :=
 
 /-- what the proofs use of encoding/json's text layer (Model/Json.lean), on texts of the shapes the encoder produces -/
 structure JsonLaws : Prop where
-  /-- json.Valid accepts everything json.Marshal writes -/
-  valid_enc : ∀ t, Enc t → valid t = true
+  /-- json.Valid accepts everything json.Marshal writes, up to the scanner's nesting limit -/
+  valid_enc : ∀ n t, n ≤ maxNestingDepth → Enc n t → valid t = true
   /-- marshalled texts carry no surrounding JSON whitespace, so the RawMessage of the document is the document -/
-  trim_enc : ∀ t, Enc t → trim t = t
+  trim_enc : ∀ n t, Enc n t → trim t = t
   /-- marshalled texts begin and end with a non-space ASCII byte (`"`, `{`, `}`, `[`, `]`, `-`, digit, `e`), so
       bytes.TrimSpace returns them unchanged -/
-  trimSpace_enc : ∀ t, Enc t → trimSpace t = t
+  trimSpace_enc : ∀ n t, Enc n t → trimSpace t = t
   /-- appendString opens with a double quote -/
   str_head : ∀ s, ∃ m, encodeString s = 34 :: m
   /-- unquote inverts appendString on valid UTF-8 (invalid bytes would come back as U+FFFD) -/
@@ -103,11 +128,11 @@ structure JsonLaws : Prop where
   parse_int : ∀ i, parse1 (fmtInt i) = some (.num (fmtInt i))
   /-- a marshalled float is a JSON number; the decoder sees its text unchanged -/
   parse_flt : ∀ f t, fmtJSON f = some t → parse1 t = some (.num t)
-  /-- a marshalled array splits into its element texts, exactly as written -/
-  parse_arr : ∀ vs, (∀ v, v ∈ vs → Enc v) → parse1 (arrText vs) = some (.arr vs)
+  /-- a marshalled array (within the nesting limit) splits into its element texts, exactly as written -/
+  parse_arr : ∀ n vs, n < maxNestingDepth → (∀ v, v ∈ vs → Enc n v) → parse1 (arrText vs) = some (.arr vs)
   /-- a marshalled object splits into its members: keys decoded (they are plain ASCII names), values as written -/
-  parse_obj : ∀ kvs, kvs ≠ [] → (∀ kv, kv ∈ kvs → kv.1 ∈ keyNames) → (∀ kv, kv ∈ kvs → Enc kv.2) →
-    parse1 (objText kvs) = some (.obj (kvs.map (fun kv => (b kv.1, kv.2))))
+  parse_obj : ∀ n kvs, n < maxNestingDepth → kvs ≠ [] → (∀ kv, kv ∈ kvs → kv.1 ∈ keyNames) →
+    (∀ kv, kv ∈ kvs → Enc n kv.2) → parse1 (objText kvs) = some (.obj (kvs.map (fun kv => (b kv.1, kv.2))))
   /-- Unmarshal of a marshalled string into `any` succeeds: there is no number token outside the string -/
   any_str : ∀ nk s, anyDecodable nk (encodeString s) = true
   /-- Unmarshal of a number text into `any` succeeds iff ParseFloat accepts that text (it is the only number token) -/
@@ -241,6 +266,43 @@ def intsInt64List : ExprList → Bool
   | .cons e t => intsInt64 e && intsInt64List t
 end
 
+/-! ### nesting depth of the encoding -/
+
+mutual
+def depthNode : Node → Nat
+  | .nil => 0
+  | .prim _ => 0
+  | .expr e => depthExpr e
+  | .list es => depthList es + 1
+  | .bound mn mx _ => max (depthNode mn) (depthNode mx) + 1
+/-- how deep arrays / objects are nested in the text `marshalExpr e` writes: a leaf is a scalar, every operator node
+    is one object, an `IN` list one array, a range boundary one object -/
+def depthExpr : Expr → Nat
+  | .mk l o r _ _ =>
+    if o = .literal || o = .wild || o = .regexp then depthNode l else max (depthNode l) (depthNode r) + 1
+def depthList : ExprList → Nat
+  | .nil => 0
+  | .cons e t => max (depthExpr e) (depthList t)
+end
+
+/-- the encoding of `e` stays within the nesting limit of encoding/json's scanner (10000).  Beyond it real Go fails
+    already in `json.Marshal` ("exceeded max depth", raised when the encoder compacts the output of `MarshalJSON`),
+    the model's `marshalExpr` succeeds and `unmarshalTop` rejects the text: `Laws.decode_needs_depth`. -/
+def depthOK (e : Expr) : Bool := decide (depthExpr e ≤ maxNestingDepth)
+
+theorem depthNode_expr (e : Expr) : depthNode (.expr e) = depthExpr e := by simp only [depthNode]
+theorem depthNode_list (es : ExprList) : depthNode (.list es) = depthList es + 1 := by simp only [depthNode]
+theorem depthNode_bound (x y : Node) (i : Bool) : depthNode (.bound x y i) = max (depthNode x) (depthNode y) + 1 := by
+  simp only [depthNode]
+theorem depthNode_nil : depthNode .nil = 0 := by simp only [depthNode]
+theorem depthExpr_leafop (l : Node) (o : Op) (r : Node) (p : F64) (d : Int)
+    (ho : (o = .literal || o = .wild || o = .regexp) = true) : depthExpr (.mk l o r p d) = depthNode l := by
+  simp only [depthExpr, ho, if_true]
+theorem depthExpr_node (l : Node) (o : Op) (r : Node) (p : F64) (d : Int)
+    (ho : (o = .literal || o = .wild || o = .regexp) = false) :
+    depthExpr (.mk l o r p d) = max (depthNode l) (depthNode r) + 1 := by
+  simp only [depthExpr, ho, Bool.false_eq_true, if_false]
+
 /-! ## 5. small facts about the fixed texts -/
 
 theorem b_lbrace : b "{" = [123] := by decide
@@ -278,7 +340,7 @@ theorem getLast_snoc (a c : UInt8) (x : Bytes) : (a :: (x ++ [c])).getLast? = so
 theorem getLast_snoc2 (a c : UInt8) (x y : Bytes) : (a :: (x ++ (y ++ [c]))).getLast? = some c := by
   rw [← List.append_assoc, getLast_snoc]
 
-theorem leaf_enc {t : Bytes} (h : LeafEnc t) : Enc t := .leaf t h
+theorem leaf_enc {n : Nat} {t : Bytes} (h : LeafEnc t) : Enc n t := .leaf n t h
 
 section
 variable (J : JsonLaws) (N : NumLaws)
@@ -301,35 +363,35 @@ theorem leaf_head {t : Bytes} (h : LeafEnc t) : ∃ a m, t = a :: m ∧ a ≠ 12
 
 theorem leaf_not_object {t : Bytes} (h : LeafEnc t) : isJSONObject t = false := by
   obtain ⟨a, m, rfl, h1, _⟩ := leaf_head J N h
-  simp [isJSONObject, J.trimSpace_enc _ (leaf_enc h), h1]
+  simp [isJSONObject, J.trimSpace_enc 0 _ (leaf_enc h), h1]
 
 theorem leaf_not_array {t : Bytes} (h : LeafEnc t) : isArray t = false := by
   obtain ⟨a, m, rfl, _, h2⟩ := leaf_head J N h
-  simp [isArray, J.trimSpace_enc _ (leaf_enc h), h2]
+  simp [isArray, J.trimSpace_enc 0 _ (leaf_enc h), h2]
 
 theorem leaf_not_boundary {t : Bytes} (h : LeafEnc t) : looksLikeRangeBoundary t = false := by
   simp [looksLikeRangeBoundary, J.strip_leaf t h]
 
-theorem obj_is_object (kvs : List (String × Bytes)) (h : Enc (objText kvs)) (hne : kvs ≠ []) :
+theorem obj_is_object {n : Nat} (kvs : List (String × Bytes)) (h : Enc n (objText kvs)) (hne : kvs ≠ []) :
     isJSONObject (objText kvs) = true := by
   cases kvs with
   | nil => exact absurd rfl hne
   | cons kv kvs =>
-    simp only [isJSONObject, J.trimSpace_enc _ h]
+    simp only [isJSONObject, J.trimSpace_enc _ _ h]
     rw [objText_cons]
     simp [getLast_snoc2]
 
-theorem obj_not_array (kvs : List (String × Bytes)) (h : Enc (objText kvs)) (hne : kvs ≠ []) :
+theorem obj_not_array {n : Nat} (kvs : List (String × Bytes)) (h : Enc n (objText kvs)) (hne : kvs ≠ []) :
     isArray (objText kvs) = false := by
   cases kvs with
   | nil => exact absurd rfl hne
   | cons kv kvs =>
-    simp only [isArray, J.trimSpace_enc _ h]
+    simp only [isArray, J.trimSpace_enc _ _ h]
     rw [objText_cons]
     simp
 
-theorem arr_is_array (vs : List Bytes) (h : Enc (arrText vs)) : isArray (arrText vs) = true := by
-  simp only [isArray, J.trimSpace_enc _ h]
+theorem arr_is_array {n : Nat} (vs : List Bytes) (h : Enc n (arrText vs)) : isArray (arrText vs) = true := by
+  simp only [isArray, J.trimSpace_enc _ _ h]
   rw [arrText_eq]
   simp [getLast_snoc]
 
@@ -594,31 +656,35 @@ theorem rightOf_text (fuel : Nat) (c : JFields) : rightOf fuel c = rightOfText f
 
 /-- what the induction carries for an encoded expression -/
 def Good (e : Expr) (j : Bytes) : Prop :=
-  Enc j ∧ isArray j = false ∧ j ≠ [] ∧ looksLikeRangeBoundary j = false ∧
-  ∀ fuel, j.length < fuel → unmarshalVal fuel j = .ok (retype e)
+  Enc (depthExpr e) j ∧ isArray j = false ∧ j ≠ [] ∧ looksLikeRangeBoundary j = false ∧
+  (depthExpr e ≤ maxNestingDepth → ∀ fuel, j.length < fuel → unmarshalVal fuel j = .ok (retype e))
 
 /-- what a node needs of its left operand -/
 def LeftGood (l : Node) (L : Bytes) : Prop :=
-  Enc L ∧ ∀ fuel, L.length < fuel → leftOfText fuel L = .ok (retypeNode l)
+  Enc (depthNode l) L ∧
+  (depthNode l ≤ maxNestingDepth → ∀ fuel, L.length < fuel → leftOfText fuel L = .ok (retypeNode l))
 
 /-- what a node needs of its (present) right operand -/
 def RightGood (r : Node) (R : Bytes) : Prop :=
-  Enc R ∧ ∀ fuel, R.length < fuel → rightOfText fuel R = .ok (retypeNode r)
+  Enc (depthNode r) R ∧
+  (depthNode r ≤ maxNestingDepth → ∀ fuel, R.length < fuel → rightOfText fuel R = .ok (retypeNode r))
 
 theorem rightOfText_nil (fuel : Nat) : rightOfText fuel [] = .ok .nil := by simp [rightOfText]
 
 theorem good_left (a : Expr) (L : Bytes) (h : Good a L) : LeftGood (.expr a) L := by
   obtain ⟨h1, h2, h3, _, h5⟩ := h
-  refine ⟨h1, fun fuel hf => ?_⟩
+  refine ⟨by rw [depthNode_expr]; exact h1, fun hdep fuel hf => ?_⟩
+  rw [depthNode_expr] at hdep
   have : L.isEmpty = false := by cases L <;> simp_all
-  simp only [leftOfText, h2, this, h5 fuel hf, retypeNode]
+  simp only [leftOfText, h2, this, h5 hdep fuel hf, retypeNode]
   simp
 
 theorem good_right (a : Expr) (R : Bytes) (h : Good a R) : RightGood (.expr a) R := by
   obtain ⟨h1, _, h3, h4, h5⟩ := h
-  refine ⟨h1, fun fuel hf => ?_⟩
+  refine ⟨by rw [depthNode_expr]; exact h1, fun hdep fuel hf => ?_⟩
+  rw [depthNode_expr] at hdep
   have : R.isEmpty = false := by cases R <;> simp_all
-  simp only [rightOfText, h4, this, h5 fuel hf, retypeNode]
+  simp only [rightOfText, h4, this, h5 hdep fuel hf, retypeNode]
   simp
 
 theorem Op.ofStr_toStr (o : Op) (h : o ≠ .undefined) : Op.ofStr o.toStr = o := by
@@ -639,7 +705,7 @@ theorem leaf_good (q : Prim) (o : Op) (r : Node) (p : F64) (d : Int) (j : Bytes)
   rw [marshalExpr_eq, if_pos ho] at h
   obtain ⟨hle, hdec⟩ := prim_roundtrip J N q hq j h
   obtain ⟨a, m, hj, _, _⟩ := leaf_head J N hle
-  refine ⟨leaf_enc hle, leaf_not_array J N hle, by simp [hj], leaf_not_boundary J N hle, fun fuel hf => ?_⟩
+  refine ⟨leaf_enc hle, leaf_not_array J N hle, by simp [hj], leaf_not_boundary J N hle, fun _ fuel hf => ?_⟩
   cases fuel with
   | zero => omega
   | succ f =>
@@ -654,31 +720,36 @@ theorem node_good (l : Node) (o : Op) (r : Node) (p : F64) (d : Int) (j : Bytes)
     (hr : r ≠ .nil → ∀ R, marshalNode r = .ok R → RightGood r R) :
     Good (.mk l o r p d) j := by
   obtain ⟨L, optR, optP, hL, hj, hR, hP⟩ := node_form l o r p d j ho h
-  obtain ⟨encL, decL⟩ := hl L hL
+  obtain ⟨encL0, decL⟩ := hl L hL
+  have hdE := depthExpr_node l o r p d ho
+  generalize hn : max (depthNode l) (depthNode r) = n at hdE
+  have hnl : depthNode l ≤ n := by omega
+  have hnr : depthNode r ≤ n := by omega
+  have encL : Enc n L := encL0.mono hnl
   -- the right operand
   obtain ⟨R, hR', encR, decR, lenR⟩ : ∃ R, ((optR = [] ∧ R = []) ∨ optR = [("right", R)]) ∧
-      (∀ kv, kv ∈ optR → kv.1 ∈ keyNames ∧ Enc kv.2) ∧
-      (∀ fuel, R.length < fuel → rightOfText fuel R = .ok (retypeNode r)) ∧
+      (∀ kv, kv ∈ optR → kv.1 ∈ keyNames ∧ Enc n kv.2) ∧
+      (depthNode r ≤ maxNestingDepth → ∀ fuel, R.length < fuel → rightOfText fuel R = .ok (retypeNode r)) ∧
       R.length ≤ (tailC (optR.map member)).length := by
     rcases hR with ⟨rfl, rfl⟩ | ⟨rr, hne, hrr, rfl⟩
-    · exact ⟨[], .inl ⟨rfl, rfl⟩, by simp, fun fuel _ => by simp [rightOfText_nil, retypeNode], by simp⟩
+    · exact ⟨[], .inl ⟨rfl, rfl⟩, by simp, fun _ fuel _ => by simp [rightOfText_nil, retypeNode], by simp⟩
     · obtain ⟨e1, e2⟩ := hr hne rr hrr
       refine ⟨rr, .inr rfl, ?_, e2, ?_⟩
       · intro kv hkv
         simp at hkv; subst hkv
-        exact ⟨by simp [keyNames], e1⟩
+        exact ⟨by simp [keyNames], e1.mono hnr⟩
       · simp [tailC, member]; omega
   -- the power
   obtain ⟨pw, hP', encP, hpw⟩ : ∃ pw : Option F64,
       ((optP = [] ∧ pw = none) ∨ (∃ t, optP = [("power", t)] ∧ fmtJSON p = some t ∧ pw = some p)) ∧
-      (∀ kv, kv ∈ optP → kv.1 ∈ keyNames ∧ Enc kv.2) ∧ pw.getD F64.one = p := by
+      (∀ kv, kv ∈ optP → kv.1 ∈ keyNames ∧ Enc n kv.2) ∧ pw.getD F64.one = p := by
     rcases hP with ⟨he, rfl⟩ | ⟨t, he, hf, rfl⟩
     · exact ⟨none, .inl ⟨rfl, rfl⟩, by simp, by simp [N.eq_one p he]⟩
     · refine ⟨some p, .inr ⟨t, rfl, hf, rfl⟩, ?_, rfl⟩
       intro kv hkv
       simp at hkv; subst hkv
       exact ⟨by simp [keyNames], leaf_enc (.flt p t hf)⟩
-  have encD : ∀ kv, kv ∈ optD d → kv.1 ∈ keyNames ∧ Enc kv.2 := by
+  have encD : ∀ kv, kv ∈ optD d → kv.1 ∈ keyNames ∧ Enc n kv.2 := by
     intro kv hkv
     unfold optD at hkv
     split at hkv
@@ -687,7 +758,7 @@ theorem node_good (l : Node) (o : Op) (r : Node) (p : F64) (d : Int) (j : Bytes)
     · simp at hkv
   have hOparse : parse1 (encodeString o.toStr) = some (.str o.toStr) := J.parse_str _ (Op.toStr_valid o)
   have hall : ∀ kv, kv ∈ (("left", L) :: ("operator", encodeString o.toStr) :: (optR ++ optD d ++ optP)) →
-      kv.1 ∈ keyNames ∧ Enc kv.2 := by
+      kv.1 ∈ keyNames ∧ Enc n kv.2 := by
     intro kv hkv
     simp only [List.mem_cons, List.mem_append] at hkv
     rcases hkv with rfl | rfl | (hkv | hkv) | hkv
@@ -697,8 +768,8 @@ theorem node_good (l : Node) (o : Op) (r : Node) (p : F64) (d : Int) (j : Bytes)
     · exact encD kv hkv
     · exact encP kv hkv
   have hne : (("left", L) :: ("operator", encodeString o.toStr) :: (optR ++ optD d ++ optP)) ≠ [] := by simp
-  have encJ : Enc j := by
-    rw [hj]; exact .obj _ hne (fun kv hkv => (hall kv hkv).1) (fun kv hkv => (hall kv hkv).2)
+  have encJ : Enc (n + 1) j := by
+    rw [hj]; exact .obj n _ hne (fun kv hkv => (hall kv hkv).1) (fun kv hkv => (hall kv hkv).2)
   have hpre : j = b "{" ++ jsonKey "left" ++
       (L ++ tailC ((("operator", encodeString o.toStr) :: (optR ++ optD d ++ optP)).map member) ++ b "}") := by
     rw [hj, objText_cons]; simp [member, b_lbrace, b_rbrace]
@@ -706,7 +777,7 @@ theorem node_good (l : Node) (o : Op) (r : Node) (p : F64) (d : Int) (j : Bytes)
     rw [hpre]; simp [b_lbrace]; omega
   have lenR' : R.length < j.length := by
     rw [hpre]; simp [b_lbrace, tailC, tailC_append]; omega
-  refine ⟨encJ, ?_, ?_, ?_, fun fuel hf => ?_⟩
+  refine ⟨by rw [hdE]; exact encJ, ?_, ?_, ?_, fun hdep fuel hf => ?_⟩
   · rw [hj] at encJ ⊢; exact obj_not_array J N _ encJ hne
   · rw [hj, objText_cons]; simp
   · rw [hpre]; simp only [looksLikeRangeBoundary, J.strip_left]; simp
@@ -716,10 +787,12 @@ theorem node_good (l : Node) (o : Op) (r : Node) (p : F64) (d : Int) (j : Bytes)
       have hobj : isJSONObject j = true := by rw [hj] at encJ ⊢; exact obj_is_object J N _ encJ hne
       rw [unmarshalVal_succ, hobj]
       simp only [Bool.not_true, Bool.false_eq_true, if_false]
-      rw [hj, J.parse_obj _ hne (fun kv hkv => (hall kv hkv).1) (fun kv hkv => (hall kv hkv).2)]
+      rw [hdE] at hdep
+      rw [hj, J.parse_obj n _ (by omega) hne (fun kv hkv => (hall kv hkv).1) (fun kv hkv => (hall kv hkv).2)]
       simp only []
       rw [decode_node_fields J N L _ o.toStr R optR optP d p pw hOparse hd hR' hP']
-      simp only [assemble, leftOf_text, rightOf_text, decL f (by omega), decR f (by omega), Op.ofStr_toStr o hou,
+      simp only [assemble, leftOf_text, rightOf_text, decL (by omega) f (by omega), decR (by omega) f (by omega),
+        Op.ofStr_toStr o hou,
         Bool.false_eq_true, if_false, retype, ho]
       rw [hpw]
       by_cases hd1 : d = 1 <;> simp [hd1]
@@ -820,12 +893,13 @@ theorem leftOK_list (es : ExprList) (ht : allTermLit es = true) (hsv : allString
   | ok parts =>
     simp only [hl, Out.ok.injEq] at hL
     obtain ⟨h1, h2⟩ := list_roundtrip J N es ht hsv hi parts hl
-    have hev : ∀ v, v ∈ parts → Enc v := fun v hv => leaf_enc (h1 v hv)
+    have hev : ∀ v, v ∈ parts → Enc (depthList es) v := fun v hv => leaf_enc (h1 v hv)
     have hL' : L = arrText parts := hL.symm
     subst hL'
-    have encL : Enc (arrText parts) := .arr parts hev
-    refine ⟨encL, fun fuel _ => ?_⟩
-    simp only [leftOfText, arr_is_array J N parts encL, J.parse_arr parts hev, h2, retypeNode, if_true]
+    have encL : Enc (depthList es + 1) (arrText parts) := .arr _ parts hev
+    refine ⟨by rw [depthNode_list]; exact encL, fun hdep fuel _ => ?_⟩
+    rw [depthNode_list] at hdep
+    simp only [leftOfText, arr_is_array J N parts encL, J.parse_arr _ parts (by omega) hev, h2, retypeNode, if_true]
 
 /-- the value `decodeBoundary` stores for a scalar bound -/
 theorem decodeAny_leaf (q : Prim) (o : Op) (r : Node) (p : F64) (d : Int) (hq : primOK q = true) (ht : termPrim q = true)
@@ -881,13 +955,16 @@ theorem rightOK_bound (a c : Expr) (incl : Bool) (hta : termLeaf a = true) (htc 
       subst hRt
       have hkeys : ∀ kv, kv ∈ [("min", A), ("max", C), ("inclusive", boolText incl)] → kv.1 ∈ keyNames := by
         intro kv hkv; simp at hkv; rcases hkv with rfl | rfl | rfl <;> simp [keyNames]
-      have hvals : ∀ kv, kv ∈ [("min", A), ("max", C), ("inclusive", boolText incl)] → Enc kv.2 := by
+      have hD := depthNode_bound (.expr (.mk (.prim qa) oa .nil pa da)) (.expr (.mk (.prim qc) oc .nil pc dc)) incl
+      generalize max (depthNode (.expr (.mk (.prim qa) oa .nil pa da)))
+        (depthNode (.expr (.mk (.prim qc) oc .nil pc dc))) = n at hD
+      have hvals : ∀ kv, kv ∈ [("min", A), ("max", C), ("inclusive", boolText incl)] → Enc n kv.2 := by
         intro kv hkv; simp at hkv
         rcases hkv with rfl | rfl | rfl
         · exact leaf_enc leA
         · exact leaf_enc leC
-        · exact .bool incl
-      have encR : Enc (boundText A C incl) := .obj _ (by simp) hkeys hvals
+        · exact .bool n incl
+      have encR : Enc (n + 1) (boundText A C incl) := .obj n _ (by simp) hkeys hvals
       obtain ⟨s1, s2, s3⟩ := J.strip_bound A C incl leA leC
       have hlook : looksLikeRangeBoundary (boundText A C incl) = true := by
         simp [looksLikeRangeBoundary, s1, s2, s3]
@@ -896,13 +973,15 @@ theorem rightOK_bound (a c : Expr) (incl : Bool) (hta : termLeaf a = true) (htc 
       have hmin : fieldOf ["min", "max", "inclusive"] (b "min") = some "min" := by decide
       have hmax : fieldOf ["min", "max", "inclusive"] (b "max") = some "max" := by decide
       have hinc : fieldOf ["min", "max", "inclusive"] (b "inclusive") = some "inclusive" := by decide
-      have hdec : decodeBoundary (boundText A C incl) = some (vA, vC, incl) := by
+      have hdec : n < maxNestingDepth → decodeBoundary (boundText A C incl) = some (vA, vC, incl) := by
+        intro hn
         unfold decodeBoundary
         rw [show boundText A C incl = objText [("min", A), ("max", C), ("inclusive", boolText incl)] from rfl,
-          J.parse_obj _ (by simp) hkeys hvals]
+          J.parse_obj n _ hn (by simp) hkeys hvals]
         simp [List.foldl, hmin, hmax, hinc, dA, dC, parse_boolText]
-      refine ⟨encR, fun fuel _ => ?_⟩
-      simp only [rightOfText, hne, hlook, hdec, eA, eC, retypeNode, retypeBoundNode]
+      refine ⟨by rw [hD]; exact encR, fun hdep fuel _ => ?_⟩
+      rw [hD] at hdep
+      simp only [rightOfText, hne, hlook, hdec (by omega), eA, eC, retypeNode, retypeBoundNode]
       simp
 
 end
@@ -1153,13 +1232,15 @@ theorem good_of_shape : ∀ e : Expr, semShapeT e = true → validateExpr e = tr
 
 /-- C12, decoding: the encoding of a parser-shaped, validated tree decodes, and decodes to `retype` of the tree -/
 theorem roundtrip_decodes (e : Expr) (hs : semShapeT e = true) (hv : validateExpr e = true)
-    (hsv : allStringsValid e = true) (hi : intsInt64 e = true) (j : Bytes) (h : marshalExpr e = .ok j) :
+    (hsv : allStringsValid e = true) (hi : intsInt64 e = true) (hdp : depthOK e = true)
+    (j : Bytes) (h : marshalExpr e = .ok j) :
     unmarshalTop j = .ok (retype e) := by
   obtain ⟨enc, _, _, _, hdec⟩ := good_of_shape J N e hs hv hsv hi j h
+  have hdp' : depthExpr e ≤ maxNestingDepth := by simpa [depthOK] using hdp
   unfold unmarshalTop
-  rw [J.valid_enc j enc, J.trim_enc j enc]
+  rw [J.valid_enc _ j hdp' enc, J.trim_enc _ j enc]
   simp only [Bool.not_true, Bool.false_eq_true, if_false]
-  exact hdec _ (by omega)
+  exact hdec hdp' _ (by omega)
 
 end
 
@@ -1510,10 +1591,12 @@ structure FmtLaws : Prop where
   /-- when Atoi accepts the JSON text of a float64 other than -0, the text is the canonical decimal of that integer
       (no sign `+`, no leading zeros, no exponent, no fraction), i.e. what Itoa prints -/
   int_text_leaf : ∀ f t i, fmtJSON f = some t → atoi t = some i → isNegZero f = false → fmtInt i = t
-  /-- a float64 with `float64(int(f)) == f` (so: finite, integer-valued, within int64, below the 1e21 exponent
-      threshold), other than -0, is written by encoding/json as the decimal of that integer -/
+  /-- a float64 with `float64(int(f)) == f` (so: finite, integer-valued, within int64) and `|f| < 2^53`, other than
+      -0, is written by encoding/json as the decimal of that integer.  The bound is needed: beyond 2^53 the shortest
+      round-tripping digits are in general not the exact integer (2^62 = 4611686018427387904 is written
+      `4611686018427388000`; `Laws.int_text_bound_unbounded_false`). -/
   int_text_bound : ∀ f, F64.eq f (F64.ofInt f.toInt) = true → isNegZero f = false →
-    fmtJSON f = some (fmtInt f.toInt)
+    f.toInt.natAbs < 9007199254740992 → fmtJSON f = some (fmtInt f.toInt)
 
 def primNoNegZero : Prim → Bool
   | .flt f => !isNegZero f
@@ -1534,10 +1617,15 @@ def noNegZeroList : ExprList → Bool
   | .cons e t => noNegZeroLeaf e && noNegZeroList t
 end
 
-/-- an int range bound survives the decoder's float64: exactly `int(float64(i)) == i` with `float64(i)` integer-valued;
-    true of every `|i| ≤ 2^53` -/
+/-- an integer-valued range bound survives the decoder's float64 and is written back with the same digits.
+    An int bound: exactly `int(float64(i)) == i` with `float64(i)` integer-valued; true of every `|i| ≤ 2^53`.
+    A float bound that the decoder turns into an int (`float64(int(f)) == f`): `|f| < 2^53` — beyond, the float is
+    written with its shortest digits (`4611686018427388000` for 2^62) but the int it becomes with all its digits
+    (`4611686018427387904`): `reencode_needs_noBigFloatBound`. -/
 def boundIntOK : Node → Bool
   | .expr (.mk (.prim (.int i)) _ _ _ _) => decide (toIntIfNecessary (F64.ofInt i) = .int i)
+  | .expr (.mk (.prim (.flt f)) _ _ _ _) =>
+    !F64.eq f (F64.ofInt f.toInt) || decide (f.toInt.natAbs < 9007199254740992)
   | _ => true
 
 mutual
@@ -1628,7 +1716,9 @@ theorem marshal_retypeBound (q : Prim) (o : Op) (r : Node) (p : F64) (d : Int)
     by_cases he : F64.eq f (F64.ofInt f.toInt) = true
     · have h1 : toIntIfNecessary f = .int f.toInt := by simp [toIntIfNecessary, he]
       rw [h1]
-      have := F.int_text_bound f he (by simpa [primNoNegZero] using hz)
+      have hb' : f.toInt.natAbs < 9007199254740992 := by
+        simpa [boundIntOK, he] using hb
+      have := F.int_text_bound f he (by simpa [primNoNegZero] using hz) hb'
       simp only [marshalNode, this]
     · have h1 : toIntIfNecessary f = .flt f := by simp [toIntIfNecessary, he]
       rw [h1]
@@ -2082,18 +2172,19 @@ include J N
 
 /-- C12 (1), as stated: decoding succeeds and the decoded expression is `retype e` -/
 theorem roundtrip_decodes' (e : Expr) (hs : semShapeT e = true) (hv : validateExpr e = true)
-    (hsv : allStringsValid e = true) (hi : intsInt64 e = true) (j : Bytes) (h : marshalExpr e = .ok j) :
+    (hsv : allStringsValid e = true) (hi : intsInt64 e = true) (hdp : depthOK e = true)
+    (j : Bytes) (h : marshalExpr e = .ok j) :
     ∃ e', unmarshalTop j = .ok e' ∧ e' = retype e :=
-  ⟨retype e, roundtrip_decodes J N e hs hv hsv hi j h, rfl⟩
+  ⟨retype e, roundtrip_decodes J N e hs hv hsv hi hdp j h, rfl⟩
 
 /-- C12 (1) with the success of the encoder (C01) included: finite boost powers (`boostsFinite`) and the one numeric
     fact `marshal_ok_of_shape` needs (`fmtJSON` is defined on finite floats) -/
 theorem roundtrip_total (hfin : ∀ f : F64, f.isInf = false → f.isNaN = false → (fmtJSON f).isSome = true)
     (e : Expr) (hs : semShapeT e = true) (hv : validateExpr e = true) (hb : boostsFinite e = true)
-    (hsv : allStringsValid e = true) (hi : intsInt64 e = true) :
+    (hsv : allStringsValid e = true) (hi : intsInt64 e = true) (hdp : depthOK e = true) :
     ∃ j, marshalExpr e = .ok j ∧ unmarshalTop j = .ok (retype e) := by
   obtain ⟨j, hj⟩ := marshal_ok_of_shape hfin e (semShape_of_semShapeT e hs) hb
-  exact ⟨j, hj, roundtrip_decodes J N e hs hv hsv hi j hj⟩
+  exact ⟨j, hj, roundtrip_decodes J N e hs hv hsv hi hdp j hj⟩
 
 end
 
@@ -2109,11 +2200,11 @@ theorem roundtrip_stable (N : NumLaws) (N2 : NumLaws2) (F : FmtLaws) (e : Expr) 
 /-- C12, the chain: the decoded expression re-encodes to the identical bytes, and decoding those again gives the same
     expression -/
 theorem roundtrip_reencode (J : JsonLaws) (N : NumLaws) (F : FmtLaws) (e : Expr) (hs : semShapeT e = true)
-    (hv : validateExpr e = true) (hsv : allStringsValid e = true) (hi : intsInt64 e = true)
+    (hv : validateExpr e = true) (hsv : allStringsValid e = true) (hi : intsInt64 e = true) (hdp : depthOK e = true)
     (hc : fieldsCanon e = true) (hz : noNegZeroLeaf e = true) (hb : noBigIntBound e = true)
     (j : Bytes) (h : marshalExpr e = .ok j) :
     ∃ e', unmarshalTop j = .ok e' ∧ marshalExpr e' = .ok j ∧ (kindStable e = true → e' = e) :=
-  ⟨retype e, roundtrip_decodes J N e hs hv hsv hi j h, by rw [marshal_retype N F e hs hv hc hz hb, h],
+  ⟨retype e, roundtrip_decodes J N e hs hv hsv hi hdp j h, by rw [marshal_retype N F e hs hv hc hz hb, h],
     retype_stable e⟩
 
 /-! ## 16. corollary: the decoded expression validates -/
@@ -2933,11 +3024,12 @@ end
     (finding K-json-float-exp: an integer-valued float leaf in [1e6, 2^63) prints differently, `print_not_preserved`). -/
 theorem roundtrip_full (J : JsonLaws) (N : NumLaws) (F : FmtLaws) (ip : Nat → Bool) (e : Expr)
     (hs : semShapeT e = true) (hv : validateExpr e = true) (hsv : allStringsValid e = true) (hi : intsInt64 e = true)
+    (hdp : depthOK e = true)
     (hc : fieldsCanon e = true) (hlk : likeKindOK e = true) (hz : noNegZeroLeaf e = true) (hb : noBigIntBound e = true)
     (hp : printStable e = true) (j : Bytes) (h : marshalExpr e = .ok j) :
     ∃ e', unmarshalTop j = .ok e' ∧ e' = retype e ∧ validateExpr e' = true ∧ marshalExpr e' = .ok j ∧
       strE ip false e' = strE ip false e ∧ (kindStable e = true → e' = e) :=
-  ⟨retype e, roundtrip_decodes J N e hs hv hsv hi j h, rfl, validate_retype e hv hlk,
+  ⟨retype e, roundtrip_decodes J N e hs hv hsv hi hdp j h, rfl, validate_retype e hv hlk,
     by rw [marshal_retype N F e hs hv hc hz hb, h], print_retype ip e hs hv hp, retype_stable e⟩
 
 /-- C12 (3) -/
@@ -2970,6 +3062,19 @@ theorem reencode_needs_noBigIntBound :
     semShapeT cexBigBound = true ∧ validateExpr cexBigBound = true ∧ fieldsCanon cexBigBound = true ∧
     noNegZeroLeaf cexBigBound = true ∧ noBigIntBound cexBigBound = false ∧
     marshalExpr (retype cexBigBound) ≠ marshalExpr cexBigBound := by decide +kernel
+
+/-- `a:[1 TO 4611686018427387904.0]` (the float 2^62) -/
+def cexBigFloatBound : Expr :=
+  .mk (.expr (lit (.prim (.col (b "a"))))) .range
+    (.bound (.expr (lit (.prim (.int 1)))) (.expr (lit (.prim (.flt ⟨0x43D0000000000000⟩)))) true) F64.one 1
+
+/-- finding "2^53", float bounds: an integer-valued FLOAT bound beyond 2^53 is written with its shortest digits
+    (`4611686018427388000`), decoded into the int 4611686018427387904 and re-encoded with all the digits of that int;
+    so `noBigIntBound` has to cover float bounds too -/
+theorem reencode_needs_noBigFloatBound :
+    semShapeT cexBigFloatBound = true ∧ validateExpr cexBigFloatBound = true ∧ fieldsCanon cexBigFloatBound = true ∧
+    noNegZeroLeaf cexBigFloatBound = true ∧ noBigIntBound cexBigFloatBound = false ∧
+    marshalExpr (retype cexBigFloatBound) ≠ marshalExpr cexBigFloatBound := by decide +kernel
 
 /-- `NOT(foo)` carrying a fuzzy distance the parser never sets there -/
 def cexFields : Expr := .mk (.expr (lit (.prim (.str (b "foo"))))) .not .nil F64.one 3
@@ -3006,6 +3111,7 @@ open GoLucene.JsonRoundTrip
 #print axioms validate_needs_likeKind
 #print axioms reencode_needs_noNegZero
 #print axioms reencode_needs_noBigIntBound
+#print axioms reencode_needs_noBigFloatBound
 #print axioms reencode_needs_fieldsCanon
 #print axioms quoted_star_retyped
 end Axioms
